@@ -52,6 +52,9 @@ def create_dzn_elements(cfg: Configuration, fct: ast.FileContents,
         if port.direction == ast.PortDirection.PROVIDES:
             # check multi client configuration for this port
             mc_fixture = check_multiclient_cfg(cfg.ports_cfg.multiclient, port.name, itf, fct)
+            if mc_fixture and semantics_of(port.name) != RuntimeSemantics.MTS:
+                raise MultiClientCfgError(f'Port "{port.name}": Multiclient port configuration is '
+                                          'only allowed for MTS ports')
             provides_ports.append(DznPortItf(port, itf, semantics_of(port.name), mc_fixture))
         else:
             if not port.injected.value:  # filter out injected required ports
